@@ -1,13 +1,13 @@
 use std::time::Instant;
 fn main() {
-    let pats = ["^(?:^\\w\\d$)$", "^(?:^(?:\\w|a\\W)$)$", "^(?:^ab?$)$", "^(?:(?i)^\\D\\S$)$"];
+    let pats = ["^(?:^\\W\\W$)$", "^(?:^a\\W$)$", "^(?:^\\W\\W\\W\\W$)$", "^(?:^\\w\\d$)$", "^(?:^(?:\\w|a\\W)$)$", "^(?:^ab?$)$", "^(?:(?i)^\\D\\S$)$"];
     for p in pats {
         let n = 300;
         let t = Instant::now();
-        for _ in 0..n { let r = regex::RegexBuilder::new(p).build().unwrap(); assert!(r.is_match("a1") || true); }
+        for _ in 0..n { let r = regex::RegexBuilder::new(p).build().unwrap(); assert!(r.is_match("\u{1f3fb}\u{1f3fb}") || true); }
         let d1 = t.elapsed() / n;
         let t = Instant::now();
-        for _ in 0..n { let r = regex::RegexBuilder::new(p).dfa_size_limit(0).build().unwrap(); assert!(r.is_match("a1") || true); }
+        for _ in 0..n { let r = regex::RegexBuilder::new(p).dfa_size_limit(0).build().unwrap(); assert!(r.is_match("\u{1f3fb}\u{1f3fb}") || true); }
         let d2 = t.elapsed() / n;
         let t = Instant::now();
         for _ in 0..n { let r = regex::RegexBuilder::new(p).build().unwrap(); std::hint::black_box(r); }
